@@ -193,3 +193,8 @@ BOUNDED = {
     "C20": ["SHA512_prng(i) == independent reimplementation for i < 32 (concrete comparison)",
             "4 ground instances of the whole permutation against an independent plain-integer Poseidon and the published vectors"],
 }
+
+
+def FACET_OF_LETTER_SET(prop):
+    """clause-name prefixes (before the first dot) generated for a property: its facet letters, plus the generic groups"""
+    return set(FACETS[prop]) | {"pre[", "cover", "loop", "frame"}
